@@ -12,29 +12,35 @@ from ..gen import WRAP
 
 
 class Reject(Exception):
-    pass
+    """lineno: the line the property holds responsible (None: no single line, e.g. a
+    top-level requirement found unmet at end of input); what: fault kind"""
+
+    def __init__(self, lineno=None, what='reject', value=None):
+        self.lineno = lineno
+        self.what = what
+        self.value = value
 
 
 class Any(Exception):
     """documentation silent for this region: any outcome accepted"""
 
 
-def norm_key(keytype, key):
+def norm_key(keytype, key, lineno=None):
     try:
         return dtspec.TABLE[keytype](key)
     except dtspec.Bad:
-        raise Reject()
+        raise Reject(lineno, 'conversion', key)
     except dtspec.DontCare:
         raise Any()
 
 
-def convert(dt, value):
+def convert(dt, value, lineno=None):
     if dt == WRAP:
         return ('W', value)
     try:
         v = dtspec.TABLE[dt](value)
     except dtspec.Bad:
-        raise Reject()
+        raise Reject(lineno, 'conversion', value)
     except dtspec.DontCare:
         raise Any()
     return pyval(v)
@@ -66,8 +72,9 @@ class State:
         self.names = []
 
     # ---------------------------------------------------------------- keys
-    def add_value(self, key, value):
-        realkey = norm_key(self.cont['keytype'], key)
+    def add_value(self, key, value, lineno=None):
+        realkey = norm_key(self.cont['keytype'], key, lineno)
+        value = (value, lineno)
         wild = None
         hit = None
         for idx, it in enumerate(self.items):
@@ -84,10 +91,10 @@ class State:
                     # a key line spelling the fixed name of a section slot
                     if any(x['kind'] in ('key', 'multikey') and x['name'] == '+' for x in self.items):
                         raise Any()
-                    raise Reject()
+                    raise Reject(lineno, 'key-is-section-name')
         if hit is None:
             if wild is None:
-                raise Reject()
+                raise Reject(lineno, 'unknown-key')
             it = self.items[wild]
             pairs = self.vals[wild]
             found = None
@@ -97,7 +104,7 @@ class State:
                     break
             if it['kind'] == 'key':
                 if found is not None:
-                    raise Reject()
+                    raise Reject(lineno, 'repeated-key')
                 pairs.append([realkey, value])
             else:
                 if found is not None:
@@ -108,7 +115,7 @@ class State:
         it = self.items[hit]
         if it['kind'] == 'key':
             if self.vals[hit] is not None:
-                raise Reject()
+                raise Reject(lineno, 'repeated-key')
             self.vals[hit] = ('v', value)
         else:
             self.vals[hit].append(value)
@@ -134,12 +141,12 @@ class State:
             return name is not None
         return name is not None and bool(norm_key(self.cont['keytype'], it['name']) == name)
 
-    def find_slot(self, type_, name):
+    def find_slot(self, type_, name, lineno=None):
         """the slot the documented search picks: children in schema order; a child with a
         fixed name decides as soon as its name equals the section name; a '*'/'+' slot
         decides as soon as its type (or an implementer of its abstract type) matches."""
         if name is not None and (name == '*' or name == '+'):
-            raise Reject()
+            raise Reject(lineno, 'bad-section-name')
         verdict = None
         for idx, it in enumerate(self.items):
             fixed = it['name'] not in ('*', '+')
@@ -182,28 +189,31 @@ class State:
                 continue
             if self._fits(it, type_, name):
                 raise Any()
-        raise Reject()
+        raise Reject(lineno, 'misplaced-section')
 
-    def add_section(self, idx, name, value):
+    def add_section(self, idx, name, value, lineno=None):
         if name is not None:
             for n in self.names:
                 if n == name:
-                    raise Reject()
+                    raise Reject(lineno, 'section-name-reused')
             self.names.append(name)
         it = self.items[idx]
         if it['kind'] == 'multisection':
             self.vals[idx].append(value)
         else:
             if self.vals[idx] is not None:
-                raise Reject()
+                raise Reject(lineno, 'surplus-section')
             self.vals[idx] = ('s', value)
 
     # ---------------------------------------------------------------- finish
-    def finish(self):
-        out = []
+    def finish(self, lineno=None):
+        """lineno: the closing line of this section (None for the top level).  First the
+        occurrence requirements of every item (a missing item is revealed by the closing
+        line), then the conversions (an unconvertible value is blamed on its own line)."""
         view = self.view
+        kt = self.cont['keytype']
+        staged = []
         for idx, it in enumerate(self.items):
-            attr = view.attr_of(it)
             v = self.vals[idx]
             k = it['kind']
             if k in ('key', 'multikey') and it['name'] == '+':
@@ -211,47 +221,60 @@ class State:
                 if it['required'] and not v:
                     if defaults:
                         raise Any()
-                    raise Reject()
+                    raise Reject(lineno, 'missing-item')
                 pairs = v
                 if not pairs:
                     pairs = []
                     for dk, dv in defaults:
-                        nk = norm_key(self.cont['keytype'], dk)
+                        nk = norm_key(kt, dk)
                         for p in pairs:
                             if p[0] == nk:
                                 if k == 'key':
-                                    raise Reject()
-                                p[1].append(dv)
+                                    raise Reject(lineno, 'schema-default-collision')
+                                p[1].append((dv, None))
                                 break
                         else:
-                            pairs.append([nk, dv if k == 'key' else [dv]])
-                if k == 'key':
-                    val = ('M', [(p[0], convert(it['dt'], p[1])) for p in pairs])
-                else:
-                    val = ('M', [(p[0], ('L', [convert(it['dt'], x) for x in p[1]])) for p in pairs])
+                            pairs.append([nk, (dv, None) if k == 'key' else [(dv, None)]])
+                staged.append(('wild', pairs))
             elif k == 'key':
                 if v is None:
                     if it['required']:
-                        raise Reject()
-                    val = convert(it['dt'], it['default']) if it.get('default') is not None else None
+                        raise Reject(lineno, 'missing-item')
+                    staged.append(('one', (it['default'], None) if it.get('default') is not None else None))
                 else:
-                    val = convert(it['dt'], v[1])
+                    staged.append(('one', v[1]))
             elif k == 'multikey':
-                vals = v if v else list(it.get('defaults', []))
+                vals = v if v else [(d, None) for d in it.get('defaults', [])]
                 if it['required'] and not vals:
-                    raise Reject()
-                val = ('L', [convert(it['dt'], x) for x in vals])
+                    raise Reject(lineno, 'missing-item')
+                staged.append(('many', vals))
             elif k == 'section':
-                if v is None:
-                    if it['required']:
-                        raise Reject()
-                    val = None
-                else:
-                    val = v[1]
+                if v is None and it['required']:
+                    raise Reject(lineno, 'missing-item')
+                staged.append(('sect', None if v is None else v[1]))
             else:
                 if it['required'] and not v:
-                    raise Reject()
-                val = ('L', list(v))
+                    raise Reject(lineno, 'missing-item')
+                staged.append(('sects', list(v)))
+        out = []
+        for idx, it in enumerate(self.items):
+            attr = view.attr_of(it)
+            kind, payload = staged[idx]
+            dt = it.get('dt')
+            if kind == 'wild':
+                if it['kind'] == 'key':
+                    val = ('M', [(p[0], convert(dt, p[1][0], p[1][1])) for p in payload])
+                else:
+                    val = ('M', [(p[0], ('L', [convert(dt, x[0], x[1]) for x in p[1]]))
+                                 for p in payload])
+            elif kind == 'one':
+                val = None if payload is None else convert(dt, payload[0], payload[1])
+            elif kind == 'many':
+                val = ('L', [convert(dt, x[0], x[1]) for x in payload])
+            elif kind == 'sect':
+                val = payload
+            else:
+                val = ('L', payload)
             out.append((attr, val))
         tree = ('S', self.typename, self.secname, out)
         if self.cont.get('datatype') == WRAP:
@@ -259,14 +282,18 @@ class State:
         return tree
 
 
-def evaluate(view, events):
+def evaluate(view, events, where=None):
+    """where: per-event line numbers (from linegrammar.parse(want_lines=True)); when given a
+    rejection is reported as ('reject', lineno, what, offending_value)"""
+    def at(i):
+        return where[i] if where is not None else None
     try:
         top = State(view, view.top, None, None)
         stack = []
         cur = top
-        for ev in events:
+        for i, ev in enumerate(events):
             if ev[0] == 'kv':
-                cur.add_value(ev[2], ev[3])
+                cur.add_value(ev[2], ev[3], at(i))
             elif ev[0] == 'start':
                 t, nm = ev[2], ev[3]
                 tname = None
@@ -275,19 +302,22 @@ def evaluate(view, events):
                         tname = cand
                         break
                 if tname is None:
-                    raise Reject()          # unknown type, or an abstract type named directly
-                idx = cur.find_slot(tname, nm)
+                    # unknown type, or an abstract type named directly
+                    raise Reject(at(i), 'unknown-section-type')
+                idx = cur.find_slot(tname, nm, at(i))
                 stack.append((cur, idx))
                 cur = State(view, view.types[tname], tname, nm)
             elif ev[0] == 'end':
                 child = cur
-                value = child.finish()
+                value = child.finish(at(i))
                 cur, idx = stack.pop()
-                cur.add_section(idx, child.secname, value)
+                cur.add_section(idx, child.secname, value, at(i))
             elif ev[0] in ('import', 'include'):
                 raise Any()
-        return ('ok', top.finish())
-    except Reject:
+        return ('ok', top.finish(None))
+    except Reject as e:
+        if where is not None:
+            return ('reject', e.lineno, e.what, e.value)
         return ('reject',)
     except Any:
         return ('any',)
